@@ -9,4 +9,6 @@ rig=$1; wt=$2
 mkdir -p "$rig"
 rsync -a --delete --exclude .git --exclude replays --exclude work /verif/ "$rig"/
 sed -i "s#path = \"/repo\"#path = \"$wt\"#" "$rig/harness/Cargo.toml"
+# the copied build output was made from /repo's sources: the rig must rebuild from its own
+rm -f "$rig/harness/target/.bw_source_hash" "$rig/harness/target/repo/.bw_source_hash"
 echo "rig ready: BW_REPO=$wt python3 $rig/check.py <id> --tier quick"
